@@ -8,7 +8,7 @@
    negated, and lists alternatives (parameters: exact value, keyword = substring, regex).
    Regular expressions (regexp2) and duration syntax (time.ParseDuration) are oracles: everything is
    stated for arbitrary [re_ok], [re_match], [dur]. *)
-From Coq Require Import List String Ascii ZArith Bool.
+From Coq Require Import List String Ascii ZArith Bool Sorted.
 Import ListNotations.
 Open Scope string_scope.
 
@@ -114,6 +114,16 @@ Definition spec_policy (fs : list func) : option (policy_kind * Z) :=
 Definition spec_policy_raw (r : policy_raw) : option (policy_kind * Z) :=
   match policy_functions r with Some fs => spec_policy fs | None => None end.
 
+(* fixed(i) designates the i-th member of the group (0-based), if there is one *)
+Fixpoint nth_Z {A : Type} (g : list A) (i : Z) : option A :=
+  match g with
+  | [] => None
+  | a :: r => if Z.eqb i 0 then Some a else nth_Z r (i - 1)
+  end.
+
+Definition fixed_choice {A : Type} (g : list A) (i : Z) : option A :=
+  if Z.leb 0 i then nth_Z g i else None.
+
 Inductive input := InName | InSubtag.
 
 Definition input_of (s : string) : option input :=
@@ -216,6 +226,30 @@ Section Oracles.
     (* the group: members in pool order, each pool position at most once, with its offset *)
     Definition spec_group (pool : list node) (lines : list line) (annos : list annotation) : list (node * Z) :=
       map (fun n => (n, node_offset n lines annos)) (filter (member lines) pool).
+
+    (* ---- the same, declaratively ---- *)
+    Definition func_holds_P (n : node) (f : func) : Prop :=
+      match input_of (f_name f) with
+      | Some i => (exists p, In p (f_params f) /\ param_matches i n p = true) <-> f_not f = false
+      | None => rd_func n f = true
+      end.
+
+    Definition satisfies (n : node) (l : line) : Prop := forall f, In f l -> func_holds_P n f.
+
+    (* g is the group of a definition with at least one filter line:
+       - its nodes are the pool positions idxs, strictly increasing (pool order, each position at most
+         once), and a position is listed iff its node satisfies some line;
+       - every member carries the offset of the annotation of the first line it satisfies. *)
+    Definition is_group (pool : list node) (lines : list line) (annos : list annotation) (g : list (node * Z)) : Prop :=
+      (exists idxs : list nat,
+          StronglySorted lt idxs
+          /\ map fst g = map (fun i => nth i pool (mkNode 0 "" "")) idxs
+          /\ forall i, In i idxs <-> (i < List.length pool /\ exists l, In l lines /\ satisfies (nth i pool (mkNode 0 "" "")) l))
+      /\ (forall n z, In (n, z) g ->
+                      exists j l a, nth_error lines j = Some l /\ nth_error annos j = Some a
+                                    /\ satisfies n l
+                                    /\ (forall j' l', j' < j -> nth_error lines j' = Some l' -> ~ satisfies n l')
+                                    /\ z = anno_value a).
   End Reading.
 
   (* what an implementation may answer *)
